@@ -5,6 +5,7 @@ import (
 	"sort"
 	"strings"
 	"go/ast"
+	"go/constant"
 	goprinter "go/printer"
 	"io"
 )
@@ -60,7 +61,75 @@ func extraLean(repo string) []string {
 		}
 		out = append(out, fmt.Sprintf("abbrev gas%s : Nat := %s\n", f, evalConst(repo, "store/types", e, 0).ExactString()))
 	}
+	// the registered parameters of the three modules: the keys listed by each `ParamSetPairs`, under the module's
+	// subspace name - the universe of keys an access-control list must cover and governance may change
+	var names []string
+	for _, m := range []struct{ dir, sub string }{{"x/auth/types", "auth"}, {"x/gov/types", "gov"}, {"x/pos/types", "pos"}} {
+		keys := paramSetKeys(repo, m.dir)
+		if len(keys) == 0 {
+			fatal("no ParamSetPairs keys found in %s", m.dir)
+		}
+		for _, k := range keys {
+			names = append(names, m.sub+"/"+k)
+		}
+	}
+	sort.Strings(names)
+	var q []string
+	for _, n := range names {
+		q = append(q, fmt.Sprintf("%q", n))
+	}
+	out = append(out, "def allParamNames : List String := ["+strings.Join(q, ", ")+"]\n")
 	return out
+}
+
+// paramSetKeys: the string values of the keys in the composite literal returned by `(*Params).ParamSetPairs` of a package
+func paramSetKeys(repo, dir string) []string {
+	var res []string
+	for _, f := range load(repo, dir) {
+		for _, d := range f.Decls {
+			fd, ok := d.(*ast.FuncDecl)
+			if !ok || fd.Name.Name != "ParamSetPairs" || fd.Recv == nil || fd.Body == nil {
+				continue
+			}
+			ast.Inspect(fd.Body, func(n ast.Node) bool {
+				ret, ok := n.(*ast.ReturnStmt)
+				if !ok || len(ret.Results) != 1 {
+					return true
+				}
+				cl, ok := ret.Results[0].(*ast.CompositeLit)
+				if !ok {
+					return true
+				}
+				for _, el := range cl.Elts {
+					pair, ok := el.(*ast.CompositeLit)
+					if !ok || len(pair.Elts) == 0 {
+						fatal("%s: ParamSetPairs element is not a pair literal", dir)
+					}
+					ke := pair.Elts[0]
+					if kv, ok := ke.(*ast.KeyValueExpr); ok { // {Key: K, Value: &p.X}
+						for _, e2 := range pair.Elts {
+							if kv2, ok := e2.(*ast.KeyValueExpr); ok && src(kv2.Key) == "Key" {
+								kv = kv2
+							}
+						}
+						ke = kv.Value
+					}
+					id, ok := ke.(*ast.Ident)
+					if !ok {
+						fatal("%s: ParamSetPairs key %s is not an identifier", dir, src(ke))
+					}
+					v := findValue(repo, dir, id.Name) // []byte("Name")
+					call, ok := v.(*ast.CallExpr)
+					if !ok || len(call.Args) != 1 {
+						fatal("%s: %s is not []byte(\"...\")", dir, id.Name)
+					}
+					res = append(res, constant.StringVal(evalConst(repo, dir, call.Args[0], 0)))
+				}
+				return false
+			})
+		}
+	}
+	return res
 }
 
 // structuralFacts: T3 facts.
